@@ -94,7 +94,7 @@ CHECKS = [
      "note": "hourly / CalTRACK prediction paths run through scikit-learn, statsmodels and clustering code outside the verifier's reach: bounded only",
      "not_covered": ["hourly models whose baseline misses (month, weekday) pairs (excluded by the statement's precondition)"],
      },
-    {"id": "C06", "level": "proof", "modules": ["contracts.C07_mask"], "bounded": ["bounded.C06_dst"],
+    {"id": "C06", "level": "proof", "modules": ["contracts.C07_mask"], "bounded": ["bounded.C06_dst", "bounded.C06_daily_rows"],
      "technique": "deductive verification (row-wise symbolic execution of the real daily _predict) + bounded-exhaustive run-time contract of the DST kernel over all IANA transitions",
      "text": "Proof (daily/billing): for one arbitrary input row the real _predict returns that row exactly once, in a frame produced by "
              "sort_index, without writing to the input, with predicted finite exactly when temperature (and usage, when supplied) is finite. "
@@ -147,6 +147,17 @@ CHECKS = [
              "predictions via from_dict for every candidate split string x custom season / weekday maps x every date of 2023-2024.",
      "note": "the argmin proof unrolls the candidate list (length fixed per case); selection_criteria's formulas and the ellipsoid filter itself are not under contract",
      "not_covered": ["the published formula of each selection criterion", "that the ellipsoid filter honours custom weekday maps (it hard-codes Mon-Fri)"],
+     },
+    {"id": "C10", "level": "proof", "modules": ["contracts.C10_sufficiency"], "bounded": ["flow.C10_tables", "bounded.C10_boundary"],
+     "technique": "deductive verification of the threshold checks (pyvc, integer VCs, z3) + call-set / writer-set table obligations from the AST + bounded end-to-end verdicts at the thresholds",
+     "text": "Proof: each day-count check of SufficiencyCriteria appends exactly its own disqualification iff its published criterion (span outside "
+             "329-365; valid days / meter days / temperature days under 90% of the span, in integer arithmetic) and writes nothing else, for all "
+             "day counts. Table obligations: the checks each criteria class invokes for baseline / reporting equal the published lists; each check "
+             "appends only to its published list; nothing else writes verdicts. Bounded (labelled so): real data classes on synthetic meters "
+             "exactly at every threshold, through both entry points.",
+     "note": "monthly coverage, negative values, no-data and the day counting itself (pandas group-bys, day_counts) are outside the symbolic part and "
+             "are decided by the bounded part only; known finding C10-offcycle-disqualifies",
+     "not_covered": ["hourly data class verdicts (HourlySufficiencyCriteria) beyond the call-set tables", "billing period day counting"],
      },
 ]
 _NOT_BUILT = "machinery for this property is not built yet (see DESIGN.md §7 build order); not claimed"
